@@ -132,6 +132,20 @@ func runOne(spec RunSpec, verbose bool) *RunResult {
 		}
 	}()
 	res.ExecS = time.Since(t1).Seconds()
+	if verbose {
+		type kv struct {
+			f *ssa.Function
+			n int
+		}
+		var l []kv
+		for f, n := range e.stepsBy {
+			l = append(l, kv{f, n})
+		}
+		sort.Slice(l, func(i, j int) bool { return l[i].n > l[j].n })
+		for i := 0; i < len(l) && i < 8; i++ {
+			fmt.Printf("    steps %8d  calls %6d  %s\n", l[i].n, e.funcsHit[l[i].f.String()], l[i].f)
+		}
+	}
 	res.Steps, res.Forks, res.Merges, res.Terms = e.Steps, e.Forks, e.Merges, len(termList)
 	res.FeasQueries, res.FeasS = e.sol.Queries, e.sol.Time.Seconds()
 	e.sol.Close()
